@@ -156,3 +156,21 @@ Theorem c41_model_agreement_implies_property : forall c,
   wf_case c = true -> check_case c = true -> holds_on c = true.
 Proof. exact check_implies_holds. Qed.
 Print Assumptions c41_model_agreement_implies_property.
+
+(** Non-vacuity of the hypotheses of the restore and concurrency theorems. *)
+Example c41_restore_nonvacuous :
+  let s := fst (gen_n (fresh Seq) 7) in
+  let s2 := mk_st Seq 1234 [save_bytes 3; save_bytes (next_id s)] in
+  gkind s = Seq /\ next_id s = 7 /\ nth_error (saves s2) 1 = Some (save_bytes (next_id s)) /\
+  snd (gen_n (fst (step s2 (LoadSaved 1))) 3) = [8; 9; 10].
+Proof. vm_compute. repeat split. Qed.
+
+Example c41_concurrent_nonvacuous :
+  let s := crun Atomic (cinit 0) [2; 0; 1; 1; 0; 2; 2]%nat in
+  ids_of 0 s = [5; 2] /\ ids_of 1 s = [4; 3] /\ ids_of 2 s = [7; 6; 1].
+Proof. vm_compute. repeat split. Qed.
+
+Example c41_link_nonvacuous :
+  let c := CSeq Seq [Gen; Save; Gen; LoadSaved 0; Gen] [OId 1; OSaved (save_bytes 1); OId 2; OOk; OId 2] [1] in
+  wf_case c = true /\ check_case c = true /\ holds_on c = true.
+Proof. vm_compute. repeat split. Qed.
